@@ -102,7 +102,7 @@ Cat(q) == IF q = <<>> THEN <<>> ELSE ChunkItems(Head(q)) \o Cat(Tail(q))
 Items(c) == Cat(c.chunks) \o LastItems(c.last)
 
 SInit == cs \in Cases
-SNext == UNCHANGED cs
+SNext == FALSE /\ UNCHANGED cs      \* one state per structure: everything is evaluated on the initial states
 
 Conform == Allowed(PV(PFold(PInit, Items(cs))), MV(MFold(MInit, Items(cs))))
 Emit == PrintT(ToJson([items |-> Items(cs), p |-> PV(PFold(PInit, Items(cs))),
